@@ -93,14 +93,14 @@ type Machine struct {
 
 	sched *Sched
 	// environment
-	nowCount  int
-	lastNow   *Term
-	slept       *Term  // time slept or declared to pass since the last clock reading
-	clockJitter uint64 // > 0: realistic clock model with this jitter bound (ns)
-	envSeq    int
-	crcCalls  int
-	sleeps    int
-	timeComps map[*Term]timeComp
+	nowCount             int
+	lastNow              *Term
+	slept                *Term  // time slept or declared to pass since the last clock reading
+	clockJitter          uint64 // > 0: realistic clock model with this jitter bound (ns)
+	envSeq               int
+	crcCalls             int
+	sleeps               int
+	timeComps            map[*Term]timeComp
 	timeWinLo, timeWinHi uint64
 	winChecked           map[*Term]bool
 	guards               map[interface{}]*guardInfo
@@ -110,12 +110,12 @@ type Machine struct {
 	stdin, stdout        []value
 	stdinChunk           int
 	fixedNow             uint64
-	hexModel  bool
-	rawCRC    bool
-	entry     func(g *G)
-	trace     []string
-	concrete  map[string]uint64
-	rng       *rand.Rand
+	hexModel             bool
+	rawCRC               bool
+	entry                func(g *G)
+	trace                []string
+	concrete             map[string]uint64
+	rng                  *rand.Rand
 }
 
 func (m *Machine) st() *Store { return m.w.st }
